@@ -38,7 +38,7 @@ def _code_find(s, pat, start=0, end=None):
             yield m
 
 
-def r1_debug_asserts(body):
+def r1_debug_asserts(body, may_fail=()):
     """R1:  if true { if !(C) { ::core::panicking::panic(..) }; }; ;   ->  if !(C) { verif_debug_panic() }
     R1': if !(C) { ::core::panicking::panic(..) }                     ->  if !(C) { verif_panic() }
     any other ::core::panicking::* call                               ->  verif_panic()
@@ -84,8 +84,15 @@ def r1_debug_asserts(body):
                             e3 = _skip_ws(s, e)
                             if e3 < len(s) and s[e3] == ';':
                                 e = e3 + 1
-                        res.append((a, e, 'if !(%s) { verif_debug_panic() }' % cond.strip()))
-                        log.append('R1: debug_assert/invariant (%s)' % norm_ws(cond)[:80])
+                        mf = [x for x in may_fail if norm_ws(x) in norm_ws(cond)]
+                        if mf:
+                            # a debug_assert! (never an invariant!) that the contract declares as a pure debug-build check:
+                            # it may or may not be evaluated (debug vs release), so nothing is assumed and nothing required.
+                            res.append((a, e, 'if verif_nondet_bool() && !(%s) { verif_panic() }' % cond.strip()))
+                            log.append('R1m: debug_assert may fail (debug-build-only check) (%s)' % norm_ws(cond)[:80])
+                        else:
+                            res.append((a, e, 'if !(%s) { verif_debug_panic() }' % cond.strip()))
+                            log.append('R1: debug_assert/invariant (%s)' % norm_ws(cond)[:80])
                         ok = True
                         pos = e
         if not ok:
@@ -389,21 +396,20 @@ def r7_any_all(body):
         xe = ('%s[%s]' % (sv, kv)) if amp else ('&%s[%s]' % (sv, kv))
         predj = re.sub(r'\b%s\b' % re.escape(x), '%s[__j]' % sv if amp else '(&%s[__j])' % sv, pred)
         if which == 'any':
-            new = ('{ let %s = %s; let mut %s: usize = 0; let mut %s = false; '
-                   'while %s < %s.len() invariant %s <= %s.len(), !%s, forall|__j: int| 0 <= __j < %s ==> !(%s), '
-                   'decreases %s.len() - %s '
-                   '{ let %s = %s; if %s { %s = true; break; } %s += 1; } '
-                   'proof { assert(%s <==> exists|__j: int| 0 <= __j < %s.len() && (%s)); } %s }'
-                   % (sv, src, kv, rv, kv, sv, kv, sv, rv, kv, predj, sv, kv, x, xe, pred, rv, kv,
-                      rv, sv, predj, rv))
+            new = ('{ let %(a)s = %(src)s; let mut %(k)s: usize = 0; let mut %(r)s = false; '
+                   'while %(k)s < %(a)s.len() invariant_except_break !%(r)s, invariant %(k)s <= %(a)s.len(), '
+                   'forall|__j: int| 0 <= __j < %(k)s ==> !(%(pj)s), '
+                   'ensures %(r)s <==> exists|__j: int| 0 <= __j < %(a)s.len() && (%(pj)s), '
+                   'decreases %(a)s.len() - %(k)s '
+                   '{ let %(x)s = %(xe)s; if %(p)s { %(r)s = true; break; } %(k)s += 1; } %(r)s }')
         else:
-            new = ('{ let %s = %s; let mut %s: usize = 0; let mut %s = true; '
-                   'while %s < %s.len() invariant %s <= %s.len(), %s, forall|__j: int| 0 <= __j < %s ==> (%s), '
-                   'decreases %s.len() - %s '
-                   '{ let %s = %s; if !(%s) { %s = false; break; } %s += 1; } '
-                   'proof { assert(%s <==> forall|__j: int| 0 <= __j < %s.len() ==> (%s)); } %s }'
-                   % (sv, src, kv, rv, kv, sv, kv, sv, rv, kv, predj, sv, kv, x, xe, pred, rv, kv,
-                      rv, sv, predj, rv))
+            new = ('{ let %(a)s = %(src)s; let mut %(k)s: usize = 0; let mut %(r)s = true; '
+                   'while %(k)s < %(a)s.len() invariant_except_break %(r)s, invariant %(k)s <= %(a)s.len(), '
+                   'forall|__j: int| 0 <= __j < %(k)s ==> (%(pj)s), '
+                   'ensures %(r)s <==> forall|__j: int| 0 <= __j < %(a)s.len() ==> (%(pj)s), '
+                   'decreases %(a)s.len() - %(k)s '
+                   '{ let %(x)s = %(xe)s; if !(%(p)s) { %(r)s = false; break; } %(k)s += 1; } %(r)s }')
+        new = new % {'a': sv, 'k': kv, 'r': rv, 'src': src, 'pj': predj, 'x': x, 'xe': xe, 'p': pred}
         s = s[:m.start()] + new + s[pc + 1:]
         log.append('R7: %s.iter().%s(|%s%s| …)' % (src, which, amp, x))
     return s, log
@@ -475,7 +481,11 @@ def apply_all(body, opts=None):
     log = []
     s = body
     _counter[0] = 0
-    for f in (r13_strip_inner_attrs, r1_debug_asserts, r4_break_value, r5_copied_iter, r8_all_block, r7_any_all):
+    s, l = r13_strip_inner_attrs(s)
+    log += l
+    s, l = r1_debug_asserts(s, opts.get('may_fail', ()))
+    log += l
+    for f in (r4_break_value, r5_copied_iter, r8_all_block, r7_any_all):
         s, l = f(s)
         log += l
     s, l = r_for_loops(s, opts.get('loop_hints'))
